@@ -79,7 +79,9 @@ func c16Decode(c int) (ops [][2]int) {
 	return ops
 }
 
-func c16Cases(tier string) int {
+// c16Seqs is the number of enumerated call sequences; every sequence is run
+// with an allow filter (even case numbers) and without one (odd).
+func c16Seqs(tier string) int {
 	l := 4
 	if tier == "thorough" {
 		l = 5
@@ -92,9 +94,14 @@ func c16Cases(tier string) int {
 	return n
 }
 
+func c16Cases(tier string) int { return 2 * c16Seqs(tier) }
+
 func c16Describe(c int) string {
 	var sb strings.Builder
-	for i, o := range c16Decode(c) {
+	if c%2 == 1 {
+		sb.WriteString("(no allow filter) ")
+	}
+	for i, o := range c16Decode(c / 2) {
 		if i > 0 {
 			sb.WriteString("; ")
 		}
@@ -109,15 +116,26 @@ func runC16(r *simkit.Run, c Cfg) {
 	denied := Identity("P2")
 	cidA, cidB := RawCid("A"), RawCid("B")
 
+	// with an allow filter that rejects one peer, or with none (then every
+	// peer is allowed)
+	filter := true
+	seq := c.Case
+	if c.Case >= 0 {
+		filter, seq = c.Case%2 == 0, c.Case/2
+	} else {
+		filter = tp.Chance(1, 2, "allowFilter")
+	}
 	var opts []announce.Option
-	opts = append(opts, announce.WithAllowPeer(func(p peer.ID) bool { return p != denied.ID }))
+	if filter {
+		opts = append(opts, announce.WithAllowPeer(func(p peer.ID) bool { return p != denied.ID }))
+	}
 	rc := must(announce.NewReceiver(nil, "", opts...))
 
 	// Build the scripts.
 	var script [][2]int
 	ntasks := 2
 	if c.Case >= 0 {
-		script = c16Decode(c.Case)
+		script = c16Decode(seq)
 	} else {
 		ntasks = tp.Range(2, 5, "ntasks")
 		n := tp.Range(2, 12, "nops")
@@ -223,6 +241,9 @@ func runC16(r *simkit.Run, c Cfg) {
 		case rcOpDirectB:
 			deliver(cidB)
 		case rcOpDirectDenied:
+			if !filter {
+				deliver(cidB) // nobody is rejected
+			}
 		case rcOpUncacheA:
 			if !m.closed {
 				delete(m.seen, cidA.String())
